@@ -124,5 +124,7 @@ def run(ctx):
     ctx.sample({"pair": meta[0]})
     ctx.assumptions += ["both configurations print numbers with the same (default) format; VERS and WRAP items are not compared, nor is "
                         "DLM, which records the spacer option the way WRAP records wrap= (since repair D25)",
-                        "inputs lasio cannot read or write with any configuration are skipped (counted in the evidence)"]
+                        "inputs lasio cannot read or write with any configuration are skipped (counted in the evidence)",
+                        "generated inputs keep ~Well values free of ':' (the 1.2 layout cannot carry them, see C03's conformance clause) and "
+                        "date-like digit-hyphen-digit text out of wrapped output (lasio's hyphen heuristic needs a hyphen on every line)"]
     return ctx.finish(RULE)
